@@ -324,15 +324,34 @@ theorem interp1_mirror (a b : ℝ × ℝ) (t : List (ℝ × ℝ)) (hl : Asc (a :
   rw [hm, interp1_on_segment _ _ _ _ (-z) hasc' (by simp only [mirrorPt]; linarith) (by simp only [mirrorPt]; linarith)]
   exact lerp_mirror p q hpq.ne z
 
-/-- `z` lies between the first and the last abscissa of a polyline with at least two vertices -/
-def InExtent (l : List (ℝ × ℝ)) (z : ℝ) : Prop :=
-  ∃ a b t, l = a :: b :: t ∧ a.1 ≤ z ∧ ∀ h : a :: b :: t ≠ [], z ≤ ((a :: b :: t).getLast h).1
+theorem asc_head_le {a : ℝ × ℝ} {l : List (ℝ × ℝ)} (h : Asc (a :: l)) {p : ℝ × ℝ} (hp : p ∈ a :: l) : a.1 ≤ p.1 := by
+  rcases List.mem_cons.mp hp with rfl | hp
+  · exact le_rfl
+  · exact (h.head_lt hp).le
+
+theorem asc_le_getLast : ∀ (l : List (ℝ × ℝ)) (_ : Asc l) (hne : l ≠ []) {q : ℝ × ℝ} (_ : q ∈ l), q.1 ≤ (l.getLast hne).1
+  | [], _, hne, _, _ => absurd rfl hne
+  | [a], _, _, q, hq => by simp only [List.mem_singleton] at hq; subst hq; simp
+  | a :: b :: t, h, _, q, hq => by
+    rw [List.getLast_cons (by simp)]
+    rcases List.mem_cons.mp hq with rfl | hq
+    · exact le_trans (h.head_lt (List.mem_cons_self)).le
+        (asc_le_getLast (b :: t) h.tail (by simp) List.mem_cons_self)
+    · exact asc_le_getLast (b :: t) h.tail (by simp) hq
+
+/-- `z` lies between the abscissae of two vertices of the polyline -/
+def InExtent (l : List (ℝ × ℝ)) (z : ℝ) : Prop := ∃ p ∈ l, ∃ q ∈ l, p.1 ≤ z ∧ z ≤ q.1
 
 theorem interp1_symmetric (l : List (ℝ × ℝ)) (hl : Asc l) (hs : mirror l = l) (z : ℝ) (hz : InExtent l z) :
     interp1 l (-z) = interp1 l z := by
-  obtain ⟨a, b, t, rfl, h1, h2⟩ := hz
-  have := interp1_mirror a b t hl z h1 (h2 (by simp))
-  rwa [hs] at this
+  obtain ⟨p, hp, q, hq, h1, h2⟩ := hz
+  match l, hl, hs, hp, hq with
+  | [], _, _, hp, _ => simp at hp
+  | [a], _, _, _, _ => rfl
+  | a :: b :: t, hl, hs, hp, hq =>
+    have := interp1_mirror a b t hl z (le_trans (asc_head_le hl hp) h1)
+      (le_trans h2 (asc_le_getLast _ hl (by simp) hq))
+    rwa [hs] at this
 
 /-! ### the rectilinear grid -/
 
